@@ -1,0 +1,351 @@
+//! Verification hooks, compiled only with `--cfg discret_verif`.
+//!
+//! Nothing in this module changes behaviour unless an external simulator installs a clock,
+//! an entropy source, a batch gate or a fault plan. Every static starts inert.
+//! The module also re-exports the public items of the crate's private modules so that a
+//! simulation harness living in another crate can drive the real services.
+#![allow(ambiguous_glob_reexports)]
+#![allow(dead_code)]
+
+pub use crate::configuration::*;
+pub use crate::database::authorisation_service::*;
+pub use crate::database::daily_log::*;
+pub use crate::database::deletion::*;
+pub use crate::database::edge::*;
+pub use crate::database::graph_database::*;
+pub use crate::database::mutation_query::*;
+pub use crate::database::node::*;
+pub use crate::database::query::*;
+pub use crate::database::query_language::data_model_parser::*;
+pub use crate::database::query_language::deletion_parser::*;
+pub use crate::database::query_language::mutation_parser::*;
+pub use crate::database::query_language::parameter::*;
+pub use crate::database::query_language::query_parser::*;
+pub use crate::database::room::*;
+pub use crate::database::room_node::*;
+pub use crate::database::sqlite_database::*;
+pub use crate::database::system_entities::*;
+pub use crate::database::{DataModification, ResultParser, MESSAGE_OVERHEAD};
+pub use crate::date_utils::*;
+pub use crate::discret::*;
+pub use crate::event_service::*;
+pub use crate::network::peer_manager::*;
+pub use crate::network::{Announce, AnnounceHeader, ConnectionInfo};
+pub use crate::peer_connection_service::*;
+pub use crate::security::*;
+pub use crate::signature_verification_service::*;
+pub use crate::synchronisation::peer_inbound_service::*;
+pub use crate::synchronisation::peer_outbound_service::*;
+pub use crate::synchronisation::room_locking_service::*;
+pub use crate::synchronisation::{
+    Answer, IdentityAnswer, LocalEvent, Query as SyncQuery, QueryProtocol, RemoteEvent,
+    NETWORK_TIMEOUT_SEC,
+};
+pub mod errors {
+    pub use crate::database::Error as DatabaseError;
+    pub use crate::network::Error as NetworkError;
+    pub use crate::security::Error as SecurityError;
+    pub use crate::synchronisation::Error as SyncError;
+}
+pub mod network {
+    pub use crate::network::endpoint::*;
+    pub use crate::network::*;
+}
+
+use std::cell::Cell;
+use std::collections::HashMap;
+use std::sync::atomic::{AtomicBool, AtomicI64, AtomicIsize, AtomicU64, AtomicUsize, Ordering};
+use std::sync::Mutex;
+
+pub const MAX_NODES: usize = 8;
+
+// ---------------------------------------------------------------------------------------
+// current simulated node
+// ---------------------------------------------------------------------------------------
+static CUR: AtomicUsize = AtomicUsize::new(0);
+thread_local! {
+    static THREAD_NODE: Cell<usize> = const { Cell::new(usize::MAX) };
+}
+
+/// the node the simulator is currently running (set by the simulator before it runs a node)
+pub fn set_cur(node: usize) {
+    CUR.store(node % MAX_NODES, Ordering::SeqCst);
+}
+
+/// node owning the calling thread: helper OS threads remember the node that spawned them,
+/// every other thread belongs to the node being run
+pub fn node() -> usize {
+    let t = THREAD_NODE.with(|c| c.get());
+    if t == usize::MAX {
+        CUR.load(Ordering::SeqCst)
+    } else {
+        t
+    }
+}
+
+static THREADS: [AtomicIsize; MAX_NODES] = [const { AtomicIsize::new(0) }; MAX_NODES];
+
+/// held by every helper OS thread (reader, writer, signature verification) for its lifetime
+pub struct ThreadGuard {
+    pub node: usize,
+}
+impl ThreadGuard {
+    pub fn enter(node: usize) -> Self {
+        THREAD_NODE.with(|c| c.set(node));
+        THREADS[node].fetch_add(1, Ordering::SeqCst);
+        ThreadGuard { node }
+    }
+}
+impl Drop for ThreadGuard {
+    fn drop(&mut self) {
+        THREADS[self.node].fetch_sub(1, Ordering::SeqCst);
+    }
+}
+pub fn live_threads(node: usize) -> isize {
+    THREADS[node].load(Ordering::SeqCst)
+}
+
+// ---------------------------------------------------------------------------------------
+// H2 clock
+// ---------------------------------------------------------------------------------------
+static CLOCK: AtomicI64 = AtomicI64::new(i64::MIN);
+
+pub fn set_clock(t: i64) {
+    CLOCK.store(t, Ordering::SeqCst);
+}
+pub fn clear_clock() {
+    CLOCK.store(i64::MIN, Ordering::SeqCst);
+}
+pub fn clock_override() -> Option<i64> {
+    let t = CLOCK.load(Ordering::SeqCst);
+    if t == i64::MIN {
+        None
+    } else {
+        Some(t)
+    }
+}
+
+// ---------------------------------------------------------------------------------------
+// H3 entropy (splitmix64 stream; inert until seeded)
+// ---------------------------------------------------------------------------------------
+static ENTROPY_ON: AtomicBool = AtomicBool::new(false);
+static ENTROPY: AtomicU64 = AtomicU64::new(0);
+
+pub fn set_entropy(seed: Option<u64>) {
+    match seed {
+        Some(s) => {
+            ENTROPY.store(s, Ordering::SeqCst);
+            ENTROPY_ON.store(true, Ordering::SeqCst);
+        }
+        None => ENTROPY_ON.store(false, Ordering::SeqCst),
+    }
+}
+pub fn entropy_state() -> u64 {
+    ENTROPY.load(Ordering::SeqCst)
+}
+
+/// fills `buf` from the simulator's generator; returns false (and leaves `buf` alone) when none is installed
+pub fn entropy_fill(buf: &mut [u8]) -> bool {
+    if !ENTROPY_ON.load(Ordering::SeqCst) {
+        return false;
+    }
+    for chunk in buf.chunks_mut(8) {
+        let s = ENTROPY
+            .fetch_add(0x9E37_79B9_7F4A_7C15, Ordering::SeqCst)
+            .wrapping_add(0x9E37_79B9_7F4A_7C15);
+        let mut z = s;
+        z = (z ^ (z >> 30)).wrapping_mul(0xBF58_476D_1CE4_E5B9);
+        z = (z ^ (z >> 27)).wrapping_mul(0x94D0_49BB_1331_11EB);
+        z ^= z >> 31;
+        let b = z.to_le_bytes();
+        chunk.copy_from_slice(&b[..chunk.len()]);
+    }
+    true
+}
+
+// ---------------------------------------------------------------------------------------
+// H4 in-flight work handed to helper OS threads
+// ---------------------------------------------------------------------------------------
+static INFLIGHT: [AtomicIsize; MAX_NODES] = [const { AtomicIsize::new(0) }; MAX_NODES];
+
+pub fn inflight(delta: isize) {
+    INFLIGHT[node()].fetch_add(delta, Ordering::SeqCst);
+}
+pub fn inflight_now(node: usize) -> isize {
+    INFLIGHT[node].load(Ordering::SeqCst)
+}
+pub fn inflight_reset(node: usize) {
+    INFLIGHT[node].store(0, Ordering::SeqCst);
+    HELD[node].store(0, Ordering::SeqCst);
+}
+/// decrements the in-flight counter of the owning node when dropped (also on unwinding)
+pub struct InflightGuard;
+impl Drop for InflightGuard {
+    fn drop(&mut self) {
+        inflight(-1);
+    }
+}
+
+// ---------------------------------------------------------------------------------------
+// H7 batch gate
+// ---------------------------------------------------------------------------------------
+static HOLD: [AtomicUsize; MAX_NODES] = [const { AtomicUsize::new(0) }; MAX_NODES];
+static HELD: [AtomicUsize; MAX_NODES] = [const { AtomicUsize::new(0) }; MAX_NODES];
+
+/// `n == 0`: gate open (shipped behaviour). `n > 0`: the buffering task keeps write requests
+/// until at least `n` are buffered, then sends them to the writer as one transaction.
+pub fn set_hold(node: usize, n: usize) {
+    HOLD[node].store(n, Ordering::SeqCst);
+}
+pub fn held_now(node: usize) -> usize {
+    HELD[node].load(Ordering::SeqCst)
+}
+pub fn hold_batch(buffered: usize) -> bool {
+    let n = node();
+    let h = HOLD[n].load(Ordering::SeqCst);
+    if h != 0 && buffered < h {
+        HELD[n].store(buffered, Ordering::SeqCst);
+        true
+    } else {
+        HELD[n].store(0, Ordering::SeqCst);
+        false
+    }
+}
+/// number of write requests in each batch handed to the writer thread, in order
+static BATCHES: Mutex<Vec<(usize, usize)>> = Mutex::new(Vec::new());
+pub fn note_batch(len: usize) {
+    if let Ok(mut b) = BATCHES.lock() {
+        b.push((node(), len));
+    }
+}
+pub fn take_batches() -> Vec<(usize, usize)> {
+    match BATCHES.lock() {
+        Ok(mut b) => std::mem::take(&mut *b),
+        Err(_) => Vec::new(),
+    }
+}
+
+// ---------------------------------------------------------------------------------------
+// H6 writer fault points
+// ---------------------------------------------------------------------------------------
+#[derive(Clone, Copy, Debug, PartialEq, Eq)]
+pub enum FaultKind {
+    /// the statement group fails once with an injected storage error
+    ErrorOnce,
+    /// it fails for this hit and the next `n` hits of the same site
+    ErrorSticky(u32),
+    /// the writer thread panics here (in-process crash: the open transaction is lost)
+    Panic,
+    /// the whole process aborts here (child-process crash)
+    Abort,
+}
+
+#[derive(Default)]
+struct FaultPlan {
+    armed: Option<(usize, String, u64, FaultKind)>,
+    hits: HashMap<(usize, String), u64>,
+    fired: Vec<(usize, String, u64)>,
+}
+static FAULTS: Mutex<Option<FaultPlan>> = Mutex::new(None);
+
+fn with_plan<T>(f: impl FnOnce(&mut FaultPlan) -> T) -> T {
+    let mut g = match FAULTS.lock() {
+        Ok(g) => g,
+        Err(p) => p.into_inner(),
+    };
+    if g.is_none() {
+        *g = Some(FaultPlan::default());
+    }
+    f(g.as_mut().unwrap())
+}
+
+/// arm one fault: at the `hit`-th (1-based, counted from now) passage of `site` on `node`
+pub fn arm_fault(node: usize, site: &str, hit: u64, kind: FaultKind) {
+    with_plan(|p| {
+        p.hits.retain(|k, _| k.0 != node);
+        p.armed = Some((node, site.to_string(), hit, kind));
+    });
+}
+pub fn disarm_faults() {
+    with_plan(|p| {
+        p.armed = None;
+    });
+}
+pub fn reset_fault_counters() {
+    with_plan(|p| {
+        p.hits.clear();
+        p.fired.clear();
+    });
+}
+/// passages counted per (node, site) since the last reset/arm
+pub fn fault_hits() -> Vec<((usize, String), u64)> {
+    with_plan(|p| {
+        let mut v: Vec<_> = p.hits.iter().map(|(k, v)| (k.clone(), *v)).collect();
+        v.sort();
+        v
+    })
+}
+pub fn faults_fired() -> Vec<(usize, String, u64)> {
+    with_plan(|p| p.fired.clone())
+}
+
+pub fn fault_point(site: &'static str) -> std::result::Result<(), rusqlite::Error> {
+    let n = node();
+    let action = with_plan(|p| {
+        let c = p.hits.entry((n, site.to_string())).or_insert(0);
+        *c += 1;
+        let count = *c;
+        let mut action = None;
+        if let Some((an, asite, ahit, kind)) = p.armed.clone() {
+            if an == n && asite == site && count >= ahit {
+                match kind {
+                    FaultKind::ErrorOnce => {
+                        p.armed = None;
+                    }
+                    FaultKind::ErrorSticky(k) => {
+                        if count >= ahit + k as u64 {
+                            p.armed = None;
+                        }
+                    }
+                    FaultKind::Panic | FaultKind::Abort => {
+                        p.armed = None;
+                    }
+                }
+                p.fired.push((n, site.to_string(), count));
+                action = Some(kind);
+            }
+        }
+        action
+    });
+    match action {
+        None => Ok(()),
+        Some(FaultKind::ErrorOnce) | Some(FaultKind::ErrorSticky(_)) => {
+            Err(rusqlite::Error::SqliteFailure(
+                rusqlite::ffi::Error::new(rusqlite::ffi::SQLITE_FULL),
+                Some(format!("discret_verif injected fault at {site}")),
+            ))
+        }
+        Some(FaultKind::Panic) => panic!("discret_verif injected crash at {site}"),
+        Some(FaultKind::Abort) => std::process::abort(),
+    }
+}
+
+// ---------------------------------------------------------------------------------------
+// probes: "this rare branch was reached" counters
+// ---------------------------------------------------------------------------------------
+static PROBES: Mutex<Option<HashMap<&'static str, u64>>> = Mutex::new(None);
+pub fn probe(name: &'static str) {
+    if let Ok(mut g) = PROBES.lock() {
+        *g.get_or_insert_with(HashMap::new).entry(name).or_insert(0) += 1;
+    }
+}
+pub fn take_probes() -> Vec<(&'static str, u64)> {
+    match PROBES.lock() {
+        Ok(mut g) => {
+            let mut v: Vec<_> = g.take().unwrap_or_default().into_iter().collect();
+            v.sort();
+            v
+        }
+        Err(_) => Vec::new(),
+    }
+}
